@@ -149,13 +149,14 @@ def viol_lines(out):
     return res
 
 
-def c08_viols(tier, wd, prop):
+def c08_viols(tier, wd, prop, only=None):
     """Forged-key verdicts for another property's check (C09: a forged key must be refused):
     every UskMac violation except the recorded re-framing finding."""
     sub = os.path.join(wd, "uskmac")
     os.makedirs(sub, exist_ok=True)
     viols, cov = c08_core(tier, sub)
-    out = [dict(v, p=[prop], hist=0, line=0) for v in viols if v["cause"] != "unframed"]
+    out = [dict(v, p=[prop], hist=0, line=0) for v in viols
+           if v["cause"] != "unframed" and (only is None or v["cause"] in only)]
     return out, {"forged_key_offers": cov["evaluations"], "forged_key_kinds": cov["kinds"]}
 
 
